@@ -90,6 +90,7 @@ class Acc:
     def __init__(self, open_classes=()):
         self.evaluations = 0
         self.nt = set()
+        self.nt_count = 0
         self.labels = collections.Counter()
         self.skips = collections.Counter()
         self.known = collections.Counter()
@@ -108,9 +109,16 @@ class Acc:
         for lab in out.labels:
             self.labels[lab] += 1
         if out.nt:
-            h = case_hash(case)
-            if h not in self.nt:
-                self.nt.add(h)
+            if getattr(part, 'distinct_by_construction', False):
+                # enumerations yield each case once: count, do not hash (keeps tens of millions of cases cheap)
+                self.nt_count += 1
+                fresh = self.nt_count <= 4 or self.nt_count % 4096 == 0
+            else:
+                h = case_hash(case)
+                fresh = h not in self.nt
+                if fresh:
+                    self.nt.add(h)
+            if fresh:
                 sz = case_size(case)
                 if len(self.samples) < 4:
                     self.samples.append(case)
@@ -140,6 +148,7 @@ class Acc:
         return {
             'evaluations': self.evaluations,
             'nt': list(self.nt),
+            'nt_count': self.nt_count,
             'labels': dict(self.labels),
             'skips': dict(self.skips),
             'known': dict(self.known),
@@ -213,8 +222,9 @@ class HypPart(Part):
 
 
 class EnumPart(Part):
-    """Finite domain enumerated completely: items(tier, k, n) yields shard k of n."""
+    """Finite domain enumerated completely: items(tier, k, n) yields shard k of n (each case exactly once)."""
     exhaustive = True
+    distinct_by_construction = True
 
     def items(self, tier, k, n):
         raise NotImplementedError
@@ -462,7 +472,7 @@ def run_check(prop_id, tier, seed):
         n = part.shards(tier)
         for k in range(n):
             tasks.append((prop_id, part.name, k, n, seed, tier, open_classes))
-    merged = {p.name: {'evaluations': 0, 'nt': set(), 'labels': collections.Counter(),
+    merged = {p.name: {'evaluations': 0, 'nt': set(), 'nt_count': 0, 'labels': collections.Counter(),
                        'skips': collections.Counter(), 'known': collections.Counter(),
                        'known_samples': {}, 'failures': {}, 'samples': [],
                        'extra': collections.Counter(), 'wall': 0.0} for p in parts}
@@ -479,6 +489,7 @@ def run_check(prop_id, tier, seed):
                 m = merged[part_name]
                 m['evaluations'] += res['evaluations']
                 m['nt'].update(res['nt'])
+                m['nt_count'] += res.get('nt_count', 0)
                 m['labels'].update(res['labels'])
                 m['skips'].update(res['skips'])
                 m['known'].update(res['known'])
@@ -550,9 +561,7 @@ def run_check(prop_id, tier, seed):
 
     # 5. evidence
     total_eval = sum(m['evaluations'] for m in merged.values())
-    all_nt = set()
-    for name, m in merged.items():
-        all_nt.update((name, h) for h in m['nt'])
+    n_nontrivial = sum(len(m['nt']) + m['nt_count'] for m in merged.values())
     samples = []
     for part in parts:
         for s in merged[part.name]['samples'][:4]:
@@ -565,14 +574,14 @@ def run_check(prop_id, tier, seed):
             samples.append(entry)
     coverage = {
         'evaluations': total_eval + regress,
-        'distinct_nontrivial': len(all_nt),
+        'distinct_nontrivial': n_nontrivial,
         'rule': prop.rule,
         'samples': samples,
         'exhaustive': bool(parts) and all(p.exhaustive for p in parts),
         'parts': {
             p.name: {
                 'evaluations': merged[p.name]['evaluations'],
-                'distinct_nontrivial': len(merged[p.name]['nt']),
+                'distinct_nontrivial': len(merged[p.name]['nt']) + merged[p.name]['nt_count'],
                 'exhaustive': p.exhaustive,
                 'rule': p.rule,
                 'labels': dict(sorted(merged[p.name]['labels'].items())),
@@ -602,7 +611,7 @@ def run_check(prop_id, tier, seed):
 
     for name, m in merged.items():
         print('part %-28s evals=%-9d nontrivial=%-8d skipped=%-7d known-excluded=%-6d wall=%.1fs' % (
-            name, m['evaluations'], len(m['nt']), sum(m['skips'].values()), sum(m['known'].values()), m['wall']))
+            name, m['evaluations'], len(m['nt']) + m['nt_count'], sum(m['skips'].values()), sum(m['known'].values()), m['wall']))
     for part_name, sig, path, what in violations:
         print('FAIL part=%s sig=%s %s' % (part_name, sig, what))
         print('VIOLATION property=%s replay=%s' % (prop_id, path))
